@@ -17,7 +17,7 @@ from .. import engine, sched, refcsv
 
 PROP = 'C16'
 LEVEL = 'exploration'
-RULE = ('Histories: a pool of 49 scenarios (sharing their table objects) (every query kind of C01-C05, LIKE with many patterns, aggregates, UNNEST, DISTINCT [COUNT], joins, UPDATE, parse errors, runtime '
+RULE = ('Histories: a pool of 52 scenarios (sharing their table objects) (every query kind of C01-C05, LIKE with many patterns, aggregates, UNNEST, DISTINCT [COUNT], joins, UPDATE, parse errors, runtime '
         'errors at record k, IO errors, query_csv, pandas); every ordered pair (quick) and every ordered triple (thorough) run in one interpreter, plus Hypothesis '
         'rule-based state machines over sequences of <= 6 (quick) / <= 12 (thorough) scenarios; invariant after every step: the result (output, header, warnings, error) '
         'equals the result of the same scenario run alone in a FRESH interpreter (one sub-process per scenario). Consecutive rbql-js queries: every ordered pair and a sample of triples (thorough: all) of a 29-scenario JS pool in one node process, each step compared with the scenario run in a fresh node process. Interleavings: two queries of different kinds run in two '
@@ -52,7 +52,8 @@ POOL = [
     S('left-join-ragged', 'select a1, b2, b3 left join b on a1 == b1', B=T3), S('ragged-input', 'select NF, * order by NF', A=T3), S('join-ragged-inner', 'select a1, b.* join b on a1 == b1', B=T3),
     S('join-agg', 'select a1, count(*), ARRAY_AGG(b2) join b on a1 == b1 group by a1', B=T2), S('strict-left-fails', 'select a1, b2 strict left join b on a1 == b1', B=T2),
     S('update', "update a3 = a1 + a2, a1 = 'U' where a1 != 'b'"), S('update-nu', 'update set a2 = NU'), S('update-join', "update a3 = b2 join b on a2 == b1", B=[['1', 'one'], ['3', 'three']]),
-    S('header', 'select a.k, a["tags"] as t, NR', a_names=NAMES), S('header-star', 'select *, a.n as num order by a.k', a_names=NAMES), S('header-join', 'select a.k, b.w join b on a.k == b.k', B=T2, a_names=NAMES, b_names=['k', 'w']),
+    S('header', 'select a.k, a["tags"] as t, NR', a_names=NAMES), S('missing-dict-key', 'select a1, a["tags"]', a_names=['k', 'n', 'other']), S('missing-dict-key-b', 'select a1, b["w"] join b on a1 == b1', B=T2, a_names=NAMES, b_names=['k', 'zz']),
+    S('header-dict-b', 'select a["k"], b["w"] join b on a["k"] == b["k"]', B=T2, a_names=NAMES, b_names=['k', 'w']), S('header-star', 'select *, a.n as num order by a.k', a_names=NAMES), S('header-join', 'select a.k, b.w join b on a.k == b.k', B=T2, a_names=NAMES, b_names=['k', 'w']),
     S('parse-error-1', 'select a1 where a1 = 1'), S('parse-error-2', 'select'), S('parse-error-3', 'select a1 join b on a1 == zz', B=T2), S('syntax-error', 'select a1 +'),
     S('agg-misuse', 'select MAX(int(a2)) + 1'), S('two-unnest', 'select UNNEST([1]), UNNEST([2])'), S('runtime-error-1', 'select a1, 1 / (1 - NR)'), S('runtime-error-3', 'select a1, 1 / (3 - NR)'),
     S('runtime-error-sorted', 'select a1 order by 1 / (4 - NR)'), S('runtime-error-agg', 'select sum(a3)'), S('nonconst-group', 'select a2, count(*) group by a1'),
@@ -293,10 +294,12 @@ def pairs_for(tier):
             ispec('update', "update a1 = 'U' + a2 where a1 != 'b'", n), ispec('like', "select a1 where like(a3, '%y') or like(a1, '_')", n),
             ispec('runtime-error', 'select a1, 1 / (2 - NR)', n), ispec('parse-error', 'select a1 where a1 = 1', n), ispec('distinct', 'select distinct a1 where a2 != "9"', n),
             ispec('top', 'select top 1 a1, NR', n), ispec('header', 'select a.k, NR as r order by a.k', n, a_names=NAMES),
+            ispec('dict-key', 'select a["tags"], a["k"]', n, a_names=NAMES), ispec('missing-dict-key', 'select a1, a["tags"]', n, a_names=['k', 'n', 'other']),
         ]}
     out = []
     small = mk(2, 1)
-    sel = [('unnest', 'distinct'), ('sorted', 'aggregate'), ('join', 'update'), ('like', 'runtime-error'), ('distinct-count', 'parse-error'), ('select', 'top'), ('header', 'sorted'), ('runtime-error', 'sorted')]
+    sel = [('unnest', 'distinct'), ('sorted', 'aggregate'), ('join', 'update'), ('like', 'runtime-error'), ('distinct-count', 'parse-error'), ('select', 'top'), ('header', 'sorted'), ('runtime-error', 'sorted'),
+           ('dict-key', 'missing-dict-key')]
     for a, b in sel:
         out.append((small[a], small[b], 2))
     if tier == 'thorough':
